@@ -60,6 +60,31 @@ func scenarioMix(enc *json.Encoder, idx int, rng *rand.Rand, n int) map[string]a
 	return s.finish(enc, false)
 }
 
+// ---------------------------------------------------------------- family B: a burst of failing handshakes (C16 C11)
+
+// ninety clients within a few milliseconds whose first bytes are no TLS, next to a few ordinary ones: whatever the proxy does to protect
+// its log from such a burst, every one of these connections was accepted, and is counted and released like any other
+func scenarioBurst(enc *json.Encoder, idx int) map[string]any {
+	s := startScenario(fmt.Sprintf("burst-%d", idx), "burst", stack.Options{HandshakeTimeout: 300 * time.Millisecond, IdleTimeout: 400 * time.Millisecond})
+	var wg sync.WaitGroup
+	for i := 0; i < 96; i++ {
+		k := []string{"garbage", "plainhttp", "garbage", "garbage", "plainhttp", "garbage", "garbage", "h1"}[i%8]
+		if i%32 == 31 {
+			k = "h2"
+		}
+		wg.Add(1)
+		go func() {
+			defer wg.Done()
+			s.client(k, clientOpts{requests: 1})
+		}()
+	}
+	wg.Wait()
+	if !s.waitExited(6 * time.Second) {
+		s.note("connections still open 6s after all clients left")
+	}
+	return s.finish(enc, false)
+}
+
 // ---------------------------------------------------------------- family R: every way of leaving, one connection kind x stage x manner each (C11)
 
 func scenarioLeave(enc *json.Encoder, idx int, reset bool) map[string]any {
@@ -875,6 +900,7 @@ func runAll(tracePath, reportPath string) {
 	for i := 0; i < nmix; i++ {
 		report = append(report, scenarioMix(enc, i, rng, nconn))
 	}
+	report = append(report, scenarioBurst(enc, 0))
 	report = append(report, scenarioLeave(enc, 0, false), scenarioLeave(enc, 1, true))
 	for i, pt := range []string{"metadata.marshal.begin", "metadata.marshal.after_settings", "metadata.marshal.after_window_update", "metadata.marshal.after_priorities"} {
 		report = append(report, scenarioCaptureRace(enc, i, pt))
